@@ -91,7 +91,7 @@ def json_crash_traces(tier: str, rng: random.Random, pred: dict):
                 elif f not in old:
                     for k in opaque_points(neu[f], "quick", rng):
                         cases.append((at_w, "partial", f, {**base, f: neu[f][:k]}))
-            cases.append(("done", "clean", "-", dict(neu)))
+            cases.append(("done", "clean", "-", dict(neu)))      # (no crash: the completed save, checked as C04 would)
             for at, sub, f, files in cases:
                 points += 1
                 ckpt.write_folder(x_dir, files)
